@@ -31,7 +31,12 @@ fn rfc_framing(method: &str, status: u16, cls: &[&str], tes: &[&str]) -> Expect 
         if all.last().map(|t| t == "chunked").unwrap_or(false) {
             return Expect::Chunked;
         }
-        return Expect::Unconstrained;
+        // chunked named but not last: the statement leaves it open. Not named at all: "Content-Length applies
+        // next" — a Transfer-Encoding without chunked does not switch the Content-Length rules off (seed
+        // C03-seed12: such a body read to the close of the connection, bad lengths accepted)
+        if all.iter().any(|t| t == "chunked") || cls.is_empty() {
+            return Expect::Unconstrained;
+        }
     }
     if !cls.is_empty() {
         let mut vals = vec![];
